@@ -104,7 +104,7 @@ def corrupt(inner, target, r, c, delta):
             J = inner.cons_jac(x)
             if target == "jac":
                 fmt = J.format
-                D = J.toarray()
+                D = J.toarray().astype(float)  # (callbacks may return integer-typed matrices)
                 D[r, c] += delta
                 J = sps.coo_matrix(D).asformat(fmt)
             return J
@@ -113,7 +113,7 @@ def corrupt(inner, target, r, c, delta):
             H = inner.lag_hess(x, y)
             if target == "hess":
                 fmt = H.format
-                D = H.toarray()
+                D = H.toarray().astype(float)
                 D[r, c] += delta
                 H = sps.coo_matrix(D).asformat(fmt)
             return H
